@@ -924,6 +924,11 @@ class Gen:
             with_local = [d for d in avail if any(x["alias"] is None and x["kind"] != "package"
                                                   for x in orc.ix.cls[d]["classes"])]
             b = rng.choice(with_local) if with_local and rng.random() < 0.4 else rng.choice(avail)
+            if self.p_compete and rng.random() < 0.7:
+                # an extends chain with several modifying levels: a base whose own extends clause modifies
+                modded = [d for d in avail if any(x.get("mods") for x in orc.ix.cls[d]["extends"])]
+                if modded:
+                    b = rng.choice(modded)
             if force_base is not None and n_ext == 0:
                 b = force_base
             r = self.ref_to(me, b, base_name=True)
